@@ -1183,3 +1183,74 @@ package vm
 //@   requires memInv(uint64(len(callContext.memory.store)), callContext.memory.lastGasCost)
 //@   ensures [len]  len(callContext.stack.data) == old(len(callContext.stack.data)) - 2
 //@   ensures [ret]  result1 == nil && len(result0) == 0
+
+// ---------------------------------------------------------------------------------------------
+// The interpreter loop (C11, C12). Every jump-table entry is called through the three function-valued
+// fields of `operation`; their contracts below are the FAMILY contract of all entries: `requires` is
+// what EVMInterpreter.Run establishes before the call (and is proved there), `ensures` is what Run relies
+// on afterwards and is an assumption about the entries (trusted here; see DESIGN.md for which entries are
+// checked against it).
+
+//@ func operation.execute
+//@   option trusted
+//@   requires [stack]  callContext != nil && callContext.stack != nil && len(callContext.stack.data) >= this.minStack && len(callContext.stack.data) <= this.maxStack
+//@   requires [static] interpreter != nil && (interpreter.readOnly ==> !this.writes)
+//@   requires [pc]     pc != nil
+//@   ensures [readonly] interpreter.readOnly == old(interpreter.readOnly)
+//@   ensures [evm]      interpreter.evm == old(interpreter.evm) && interpreter.evm.depth == old(interpreter.evm.depth)
+//@   ensures [ctx]      callContext.stack == old(callContext.stack) && callContext.memory == old(callContext.memory) && callContext.contract == old(callContext.contract)
+//@   ensures [table]    interpreter.jumpTable == old(interpreter.jumpTable) && samecomp("vm.operation")
+//@   ensures [mem]      callContext.memory != nil ==> uint64(len(callContext.memory.store)) <= 137438953440
+
+//@ func operation.dynamicGas
+//@   option trusted
+//@   requires arg0 != nil && arg1 != nil && arg2 != nil && arg3 != nil
+//@   ensures [depth] arg0.depth == old(arg0.depth)
+//@   ensures [gas]   arg1.Gas == old(arg1.Gas)
+//@   # every gas function of an entry that has a memory-size function goes through memoryGasCost, which
+//@   # rejects sizes above 0x1FFFFFFFE0
+//@   ensures [mem]   result1 == nil ==> arg4 <= 137438953440
+//@   modifies heap("vm.Memory"), heap("vm.EVM"), ghost(stver)
+
+//@ func operation.memorySize
+//@   option trusted
+//@   requires arg0 != nil
+//@   modifies nothing
+
+// sync.Pool-backed stacks: a pooled stack is empty and has the capacity it was created with.
+//@ func newstack
+//@   option trusted
+//@   ensures result != nil && len(result.data) == 0
+//@   modifies nothing
+
+//@ func newReturnStack
+//@   option trusted
+//@   ensures result != nil && len(result.data) == 0
+//@   modifies nothing
+
+//@ func returnStack
+//@   option trusted
+//@   requires s != nil
+//@   modifies s.data
+
+//@ func returnRStack
+//@   option trusted
+//@   requires rs != nil
+//@   modifies rs.data
+
+// Run: the frame discipline. The call depth and the read-only flag are restored on every exit (a static
+// frame sets the flag only if it was not set, and only then clears it again); no entry flagged `writes`
+// and no CALL with value is executed while the flag is set; every entry is called with the stack depth its
+// table entry demands; gas only goes down between the charges of one step.
+//@ func EVMInterpreter.Run
+//@   property C11 C12
+//@   requires in != nil && in.evm != nil && contract != nil
+//@   # consistency of the jump table built by newInstructionSet: CALL (0xf1) pops 7 items, and an entry with a
+//@   # memory-size function also has a dynamic gas function (which charges for and bounds the expansion)
+//@   requires [table] in.jumpTable[241] != nil ==> in.jumpTable[241].minStack >= 3
+//@   requires [table2] forall o int :: 0 <= o && o < 256 && in.jumpTable[o] != nil && in.jumpTable[o].memorySize != nil ==> in.jumpTable[o].dynamicGas != nil
+//@   loop 0: invariant in.evm == old(in.evm) && in.evm.depth == old(in.evm.depth) + 1 && in.readOnly == (old(in.readOnly) || readOnly)
+//@   loop 0: invariant callContext.stack == stack && callContext.memory == mem && callContext.contract == contract
+//@   loop 0: invariant in.jumpTable == old(in.jumpTable) && samecomp("vm.operation")
+//@   ensures [depth]    in.evm == old(in.evm) && in.evm.depth == old(in.evm.depth)
+//@   ensures [readonly] in.readOnly == old(in.readOnly)
